@@ -212,10 +212,71 @@ def family(rng, n):
     return cases
 
 
+def relay_family(rng, n):
+    """An actor relays every trigger it gets to another actor, many times in a row, on machines with a small
+    maxIterations: relaying is not self-raising, nothing may be throttled or lost (C04, C13)."""
+    cases = []
+    for i in range(n):
+        steps = [("do", 0, 1, [("spawn", rng.choice(["plain", "builtin"]), "w", "a", rng.choice([None, "sysA"])),
+                               ("spawn", "plain", "w", "b", "sysB")]), ("adv", 100)]
+        k, msg, t = 1, 0, 100
+        for _ in range(rng.choice([5, 8, 12, 16])):
+            k += 1
+            msg += 1
+            who = rng.choice([0, 0, 0, 1, 2])
+            if who == 0:
+                op = rng.choice([("sendTo", "a", msg, 0, None), ("sendTo", "sysB", msg, 0, None), ("forward", "b")])
+            else:
+                op = rng.choice([("sendParent", msg, 0, None), ("sendTo", "sysB" if who == 1 else "parent", msg, 0, None)])
+            steps.append(("do", who, k, [op]))
+            if rng.random() < 0.15:
+                t += 100
+                steps.append(("adv", t))
+        steps.append(("adv", t + 200))
+        cases.append((steps, ("async", "sync")[i % 2], rng.choice([2, 3, 5])))
+    return cases
+
+
+def silence_family(rng, n):
+    """Actors with delayed sends (with and without send ids) pending towards live actors are stopped - by stopChild,
+    as descendants, by stop() - before the delay elapses: nothing may arrive afterwards (C14, C15)."""
+    cases = []
+    for i in range(n):
+        steps = [("do", 0, 1, [("spawn", "plain", "w", "a", "sysA"), ("spawn", rng.choice(["plain", "blocking"]), "w", "b", "sysB")]), ("adv", 100),
+                 ("do", 1, 2, [("spawn", "plain", "g", "x", "sysG")]), ("adv", 200)]
+        k, msg = 2, 0
+        for who in rng.sample([1, 1, 3, 3, 2], 3):
+            k += 1
+            ops = []
+            for _ in range(rng.choice([1, 2, 3])):
+                msg += 1
+                sid = rng.choice([None, None, "s1", "s2"])
+                ops.append(rng.choice([("sendParent", msg, rng.choice([160, 250]), sid),
+                                       ("sendTo", "sysB", msg, rng.choice([160, 250]), sid),
+                                       ("sendTo", "sysA", msg, rng.choice([70, 160]), sid)]))
+            steps.append(("do", who, k, ops))
+        steps.append(("adv", 250))
+        k += 1
+        steps.append(rng.choice([("do", 0, k, [("stopChild", rng.choice(["a", "sysA"]))]), ("stop", 1), ("stop", 0), ("do", 1, k, [("stopChild", "x")])]))
+        steps.append(("adv", 1000))
+        cases.append((steps, ("sync", "async")[i % 2], 3))
+    return cases
+
+
+def actor_component(cases, name):
+    """K-actor + the C15 monitor on a family of actor scenarios -> (disagreements, monitor failures, stats)"""
+    disagreements, stats, results = actors.check(cases, name)
+    failures = []
+    for (steps, engine, mi), res in zip(cases, results):
+        for what, sig in monitor(steps, engine, res):
+            failures.append(dict(case=dict(steps=steps, engine=engine, max_iter=mi), what=what, signature=sig))
+    return disagreements, failures, stats
+
+
 def run(rep, ctx):
     rng = random.Random(ctx["seed"] * 7919 + 15)
     big = ctx["tier"] == "thorough"
-    cases = family(rng, 3000 if big else 500)
+    cases = family(rng, 3000 if big else 500) + relay_family(rng, 300 if big else 40) + silence_family(rng, 300 if big else 40)
     disagreements, stats, results = actors.check(cases, "c15")
     failures = []
     for (steps, engine, mi), res in zip(cases, results):
